@@ -172,6 +172,9 @@ def check(run: Run) -> None:
             continue
         if "﻿" in c["src"] or corpus.has_at_paren(c["src"]):
             continue
+        if "SyntaxError" not in ((r.get("py_exc") or {}).get("mro") or []):
+            run.note("cpython_failed_without_a_syntax_error")      # e.g. ValueError from its own AST validation for f'{x:{y=}}': not a rejection
+            continue
         invalid += 1
         run.count_case(c["src"] + c["mode"], nontrivial=len(c["src"]) > 2)
         if invalid % 2999 == 0:
